@@ -1014,6 +1014,14 @@ fn drive(sc: &Scenario, world: &Rc<RefCell<World>>, out: &mut Outcome) {
             err = Some("driver loop does not terminate".into());
             break;
         }
+        // scenarios named "...signals-at-a-stop": somebody sends all the signals while the program
+        // sits at its first reported stop (every thread stopped); they are all pending at the resume
+        if sc.name.contains("signals-at-a-stop") && out.stops.len() == 1 {
+            let mut w = world.borrow_mut();
+            while w.env_enabled() {
+                w.send_env_signal();
+            }
+        }
         // ---- the user's command: `stepi` (Debugger::single_step_instruction) while some are
         // owed after the last stop, else `continue` (Debugger::continue_execution) ----
         let do_stepi = stepi_left > 0 && {
@@ -1540,9 +1548,13 @@ pub fn explore(sc: &Scenario, bound: usize, max_exec: u64, threads: usize) -> Ex
                     local.max_points = local.max_points.max(o.points.len());
                     local.outcomes.insert(o.stops.join("|"));
                     let choices: Vec<usize> = o.points.iter().map(|p| p.chosen).collect();
+                    let base_schedule = choices.iter().all(|c| *c == 0);
                     for (sg, d) in &o.violations {
-                        if local.violations.iter().filter(|v| &v.0 == sg).count() < 2 {
-                            local.violations.push((sg.clone(), d.clone(), choices.clone()));
+                        // a signal verdict that needs no deviation at all is a different finding from
+                        // one that needs a particular race: the recorded ones all need deviations
+                        let sg = if base_schedule && sg.starts_with("C10:sim:signal-") { format!("{sg}:in-the-base-schedule") } else { sg.clone() };
+                        if local.violations.iter().filter(|v| v.0 == sg).count() < 2 {
+                            local.violations.push((sg, d.clone(), choices.clone()));
                         }
                     }
                     let used: usize = choices.iter().filter(|c| **c != 0).count();
@@ -1731,8 +1743,16 @@ pub fn scenarios_c10(tier: Tier) -> Vec<Scenario> {
     v.push(mk("one-thread-sigint", &single, vec![m(1)], vec![(2, 0), (10, 0)]));
     v.push(mk("two-threads-usr1-each", &progs2, vec![w(1)], vec![(10, 0), (12, 1)]));
     v.push(mk("two-threads-same-signal", &progs2, vec![m(1)], vec![(10, 0), (10, 1)]));
+    // three threads in a signal stop at once: the injection queue holds three entries
+    let progs4 = vec![vec![Spawn(1), Spawn(2), Spawn(3), Nop, Join, Join, Join, Exit(0)], vec![Nop, Nop, Nop, Exit(0)], vec![Nop, Nop, Nop, Exit(0)], vec![Nop, Nop, Nop, Exit(0)]];
+    v.push(mk("three-workers-one-signal-each", &progs4, vec![m(3)], vec![(10, 1), (12, 2), (1, 3)]));
+    v.push(mk("three-workers-signals-at-a-stop", &progs4, vec![m(3)], vec![(10, 1), (12, 2), (1, 3)]));
+    v.push(mk("two-threads-signals-at-a-stop", &progs2, vec![m(1)], vec![(10, 0), (12, 1)]));
     let base = v.clone();
     for s in &base {
+        if s.name.starts_with("three-workers") || s.name.contains("signals-at-a-stop") {
+            continue;
+        }
         let mut t = s.clone();
         t.stepi_after_stop = 1;
         t.name = format!("{}/stepi", s.name);
@@ -1783,6 +1803,10 @@ fn run_part(name: &str, rule: &str, scenarios: Vec<Scenario>, bound: usize, cap:
                 continue;
             }
             let sig = if sig.starts_with("C09:sim:tracer-") && prop != "C09" { format!("{prop}{}", &sig[3..]) } else { sig };
+            // signal verdicts with three or more receiving threads are findings of their own: the
+            // recorded ones were made with one or two receivers and must not cover them
+            let receivers: BTreeSet<usize> = sc.env_signals.iter().map(|x| x.1).collect();
+            let sig = if receivers.len() >= 3 && sig.starts_with("C10:sim:signal-") { format!("{sig}:{}-receivers", receivers.len()) } else { sig };
             part.violate(sig.clone(), format!("[{}] {detail}", sc.name), json!({"engine": "simk", "scenario": scenario_to_json(sc), "choices": choices, "signature": sig}));
         }
     }
